@@ -294,6 +294,17 @@ def run(chk):
                        "reference for 'RPM's ordering' in the theorems (vercmp_eq_reference): IV.Rpm.Reference.rpmvercmp, a line-by-line "
                        "transcription of rpm lib/rpmvercmp.c (source quoted in lean/IV/Model/RpmRef.lean); checked on every run against "
                        "the Python port on all generated pairs and against every row of RPM's rpmvercmp.at table"]
+    chk.rule += ("; round 10: short package strings printed from fields (names with dashes/dots/digits, epochs, '~^+' in version and release, "
+                 "known / unknown / missing architecture, '-' as architecture separator) and malformed ones through every route from a string to a "
+                 "package; epochs given / missing / '(none)' / non-numeric; a package against itself and against equal copies; fields assigned "
+                 "after a first comparison and source packages; 16 kinds of operands that are not packages; pairs of packages for hashing that "
+                 "agree / differ in text, epoch, arch, class, repository; `rpm -qa` listings (short, sosreport, JSON; host and container parser) "
+                 "of several names with look-ups of present and absent names")
+    chk.assumptions += ["int() of an epoch is modelled for non-empty ASCII decimal strings; other epochs raise in code and model (signs, blanks, "
+                        "underscores and non-ASCII digits are not generated)",
+                        "KNOWN_ARCHITECTURES is a parameter of the model of _parse_package (the live list is sent to the driver); the harness's own "
+                        "list of ten common architectures must be recognised",
+                        "hash collisions of CPython's str hash are not considered: different hashed strings are expected to hash differently"]
     chk.lean()
 
     # ---- stream 1: _rpm_vercmp on pairs (corpus first: RPM's table)
@@ -467,7 +478,10 @@ def run(chk):
             rpms = parse_list(which, evrs)
             got = rpms.packages.get("pkg", [])
             if [(int(p.epoch), p.version, p.release) for p in got] != evrs:
-                chk.count("lists:parse-differs")
+                # the builds are written without '-', ':' or blanks in version and release: every parser reads them back as written,
+                # otherwise newest()/oldest() are extremal among something else than the listed builds
+                chk.failure("%s: the listed builds %r were read as %r" % (which, evrs, [(p.epoch, p.version, p.release) for p in got]),
+                            {"op": "max", "evrs": evrs, "parser": which})
                 continue
             mx, mn = rpms.newest("pkg"), rpms.oldest("pkg")
         except Exception as e:
@@ -497,6 +511,661 @@ def run(chk):
     chk.compare("newest/oldest", list_cases, impl, model)
     if list_cases:
         chk.sample({"newest/oldest of": list_cases[0], "impl": impl[0]})
+
+    run_glue(chk)
+
+
+
+# ======================================================================================================
+# round 10: the glue around the comparison — package strings, epochs, identity, operands that are not
+# packages, hashing, look-up by name (model: lean/IV/Model/RpmPkg.lean)
+# ======================================================================================================
+
+OWN_ARCHES = ["x86_64", "i686", "noarch", "s390x", "ppc64le", "aarch64", "i386", "src", "ppc64", "s390"]
+PKG_NAMES = ["bash", "kernel-rt", "python3-libs", "gpg-pubkey", "java-1.8.0-openjdk", "lib-2", "a", "x86_64", "compat-libstdc++-33",
+             "nss_db", "glibc.i686", "0ad", "texlive-l3kernel", "oracleasm", "oracleasm-2.6.18-164.el5", "oracleasm.el5", "é-pkg", "-", ""]
+VER_ALPHA = ["0", "1", "9", "10", "01", "a", "b", "Z", ".", "_", "~", "^", "+", "rc", "el7", "é"]
+HASH_FINDING = "eq-but-hash-differs"
+
+
+def _known_arches(chk):
+    from insights.parsers import installed_rpms as ir
+    ka = getattr(ir, "KNOWN_ARCHITECTURES", None)
+    if not isinstance(ka, (list, tuple, set, frozenset)) or not all(isinstance(x, str) for x in ka):
+        chk.failure("KNOWN_ARCHITECTURES is not a collection of strings: %r" % (ka,), {"op": "pp", "s": "bash-1-1.x86_64"})
+        return list(OWN_ARCHES)
+    return sorted(ka)
+
+
+def _fields_of(d):
+    """canonical form of what a parse produced: dict of _parse_package or a package object"""
+    if isinstance(d, dict):
+        get = lambda k: d.get(k, "<missing>")
+    else:
+        get = lambda k: getattr(d, k, "<missing>")
+    out = []
+    for k in ("name", "epoch", "version", "release"):
+        v = get(k)
+        out.append(enc(v) if isinstance(v, str) else "!%r" % (v,))
+    a = get("arch")
+    out.append("N" if a is None else "A" + enc(a) if isinstance(a, str) else "!%r" % (a,))
+    return "|".join(out)
+
+
+def _guard(f):
+    try:
+        return f()
+    except (TypeError, ValueError):
+        return "E"                      # what the code does with a string that is no package string
+    except Exception as e:
+        return "raised:" + type(e).__name__
+
+
+def pp_routes(s):
+    """every documented way from a short package string to fields; each gives the canonical field line"""
+    from insights.parsers import installed_rpms as ir
+    cl = _classes()
+    routes = [("_parse_package", lambda: _fields_of(InstalledRpm._parse_package(s)))]
+    obj = [("from_package", lambda: InstalledRpm.from_package(s)), ("InstalledRpm(str)", lambda: InstalledRpm(s)),
+           ("module from_package", lambda: ir.from_package(s)), ("YumListRpm.from_package", lambda: cl["YumListRpm"].from_package(s)),
+           ("subclass(str)", lambda: _SubRpm(s))]
+    if s and not any(c.isspace() for c in s):
+        obj += [("from_line", lambda: InstalledRpm.from_line(s)),
+                ("from_line+sos", lambda: InstalledRpm.from_line(s + "    Tue 14 Jul 2015 09:25:38 AEST\t1398536494\tRed Hat, Inc.")),
+                ("rpm -qa parser", lambda: _only(InstalledRpms(context_wrap("\n" + s + "\n")), s))]
+    for nm, f in obj:
+        routes.append((nm, (lambda f=f: _fields_of(f()))))
+    return [(nm, _guard(f)) for nm, f in routes]
+
+
+def _only(rpms, s):
+    if getattr(rpms, "unparsed", None):
+        raise ValueError("unparsed")        # the parser's way of refusing a line
+    ps = [p for l in rpms.packages.values() for p in l]
+    if len(ps) != 1:
+        raise AssertionError("one line gave %d packages" % len(ps))
+    return ps[0]
+
+
+def pp_oracle(s, want=None):
+    """messages for every way the parse of `s` breaks the property's premises: the routes disagree, or a string
+    printed from well-formed fields does not come back as those fields. Returns (messages, raw canonical line)"""
+    rs = pp_routes(s)
+    raw = rs[0][1]
+    msgs = []
+    # the object's epoch is the raw one with '(none)' read as 0
+    parts = raw.split("|")
+    exp_obj = raw
+    if len(parts) == 5 and parts[1] == enc("(none)"):
+        exp_obj = "|".join([parts[0], enc("0")] + parts[2:])
+    for nm, got in rs[1:]:
+        if got != exp_obj:
+            msgs.append("package string %r: %s gives %s, _parse_package gives %s" % (s, nm, _show_fields(got), _show_fields(exp_obj)))
+    if want is not None:
+        w = "|".join([enc(want[0]), enc(want[1]), enc(want[2]), enc(want[3]), "N" if want[4] is None else "A" + enc(want[4])])
+        if raw != w:
+            msgs.append("package string %r printed from %r parses as %s" % (s, want, _show_fields(raw)))
+    return msgs, raw
+
+
+def _show_fields(line):
+    if "|" not in line:
+        return line
+    return "(" + ", ".join("None" if x == "N" else repr(dec(x[1:])) if x[:1] == "A" else x if x[:1] == "!" else repr(dec(x)) for x in line.split("|")) + ")"
+
+
+def gen_pkg_string(rng):
+    """(string, fields it was printed from or None when the hypotheses of parsePackage_print do not hold)"""
+    def piece(n, lo=1):
+        return "".join(rng.choice(VER_ALPHA) for _ in range(rng.randint(lo, n)))
+    k = rng.random()
+    if k < 0.12:
+        return rng.choice(["", "bash", "bash-1", "bash-1-", "bash-1-1.", "-", "--", "---", ".", "a.b", "-1-1", "bash--1", "bash-1-1-", "x86_64",
+                           "bash-1-1.x86_64.", "bash-1:-1.noarch", "bash-:1-1", "a-b", "a-b-c-d-e", "bash-1-1 x", "bash 1-1", " bash-1-1",
+                           "bash-1-1\t", "bash-1-1.é", "oracleasm.el5-1-1", "oracleasm-x.el5", "bash-1:2:3-4.i686"]), None
+    name = rng.choice(PKG_NAMES)
+    ver, rel = piece(4), piece(4)
+    epoch = rng.choice([None, None, None, "0", "1", "32", "(none)", "007", "4294967296"])
+    arch = rng.choice(OWN_ARCHES)
+    sep = "."
+    ok, noarch = True, False
+    r = rng.random()
+    if r < 0.1:
+        arch, ok = rng.choice(["el7", "x86_65", "X86_64", "foo", "1", "rc"]), False
+    elif r < 0.18:
+        arch, sep, noarch = None, "", True
+    elif r < 0.24:
+        sep, ok = "-", False
+    if rng.random() < 0.08:
+        kind = rng.randrange(3)
+        if kind == 0:
+            ver, ok = ver + "-" + piece(2), False
+        else:
+            # behind an epoch the version may be empty or hold further colons (parsePackage_print_epoch)
+            ver, ok = ("" if kind == 1 else ver + ":" + piece(2)), ok and epoch is not None
+    if rng.random() < 0.06:
+        rel, ok = rng.choice([rel + "-" + piece(2), ""]), False
+    s = "%s-%s%s-%s%s%s" % (name, epoch + ":" if epoch is not None else "", ver, rel, sep, arch or "")
+    fields_name, fields_ver = name, ver
+    if name.startswith("oracleasm") and name.endswith(".el5"):
+        # oracleasm-<kernel version>.el5: the kernel version belongs to the version, the package is 'oracleasm'
+        if "-" in name:
+            fields_name, fields_ver = name.split("-", 1)[0], name.split("-", 1)[1] + "-" + ver
+        else:
+            ok = False
+    if epoch is None and ":" in ver:
+        ok = False
+    if any(c.isspace() for c in s):
+        ok = False
+    if noarch and re.split(r"[.-]", s)[-1] in set(OWN_ARCHES) | set(_impl_arches()):
+        ok = False                       # what stands behind the last '.' or '-' happens to be an architecture
+    want = (fields_name, epoch if epoch is not None else "0", fields_ver, rel, arch) if ok else None
+    return s, want
+
+
+def _impl_arches():
+    from insights.parsers import installed_rpms as ir
+    ka = getattr(ir, "KNOWN_ARCHITECTURES", None)
+    return [x for x in ka if isinstance(x, str)] if isinstance(ka, (list, tuple, set, frozenset)) else []
+
+
+def ep_objects(case):
+    """two packages 'p-1-1' whose epoch is given / left out, by dict or JSON"""
+    out = []
+    for present, e, route in ((case[0], case[1], case[4]), (case[2], case[3], case[5])):
+        d = {"name": "p", "version": "1", "release": "1", "arch": "noarch"}
+        if present:
+            d["epoch"] = e
+        out.append(InstalledRpm.from_json(json.dumps(d)) if route == "json" else InstalledRpm(d))
+    return out
+
+
+def ep_impl(case):
+    try:
+        a, b = ep_objects(case)
+        ea, eb = a.epoch, b.epoch
+        head = "%s|%s|" % (enc(ea) if isinstance(ea, str) else "!%r" % (ea,), enc(eb) if isinstance(eb, str) else "!%r" % (eb,))
+    except Exception as e:
+        return "raised:" + type(e).__name__
+    try:
+        return head + str(_impl.rpm_version_compare(a, b))
+    except ValueError:
+        return head + "E"
+    except Exception as e:
+        return head + "raised:" + type(e).__name__
+
+
+def ep_want(case):
+    """independent statement: a missing epoch and '(none)' are 0, decimal epochs compare as numbers"""
+    es = []
+    for present, e in ((case[0], case[1]), (case[2], case[3])):
+        es.append("0" if (not present or e == "(none)") else e)
+    if all(re.fullmatch(r"[0-9]+", e) for e in es):
+        return "%s|%s|%d" % (enc(es[0]), enc(es[1]), sgn(int(es[0]) - int(es[1])))
+    return "%s|%s|E" % (enc(es[0]), enc(es[1]))
+
+
+class _Duck(object):
+    """looks like a package, is none"""
+    name, epoch, version, release, arch = "bash", "0", "1", "1", "x86_64"
+
+
+def foreign_operands():
+    import collections
+    nt = collections.namedtuple("P", "name epoch version release arch")
+    return [("None", None), ("0", 0), ("1", 1), ("5.5", 5.5), ("''", ""), ("str", "bash-1-1"), ("bytes", b"bash-1-1"), ("tuple", ("bash", "1", "1")),
+            ("list", []), ("dict", {"name": "bash", "version": "1", "release": "1", "epoch": "0"}), ("object", object()), ("duck", _Duck()),
+            ("namedtuple", nt("bash", "0", "1", "1", "x86_64")), ("class", InstalledRpm), ("True", True),
+            ("parser", InstalledRpms(context_wrap("bash-1-1.x86_64")))]
+
+
+def _six(fs):
+    out = []
+    for f in fs:
+        try:
+            v = f()
+            out.append("1" if v is True else "0" if v is False else "?%r" % (v,))
+        except ValueError:
+            out.append("E")
+        except Exception as e:
+            out.append("raised:" + type(e).__name__)
+    return ",".join(out)
+
+
+def foreign_impl(a, x):
+    """(a OP x) and the same six questions asked from the other side (x OP' a)"""
+    direct = _six([lambda: a == x, lambda: a != x, lambda: a < x, lambda: a <= x, lambda: a > x, lambda: a >= x])
+    mirrored = _six([lambda: x == a, lambda: x != a, lambda: x > a, lambda: x >= a, lambda: x < a, lambda: x <= a])
+    return direct, mirrored
+
+
+def hash_objs(case):
+    """case: name1, evr1, arch1, name2, evr2, arch2, cls1, cls2, route1, route2 — arch None = the object has no arch"""
+    out = []
+    for name, evr, arch, cls, route in ((case[0], case[1], case[2], case[6], case[8]), (case[3], case[4], case[5], case[7], case[9])):
+        c = _classes()[cls]
+        d = {"name": name, "epoch": str(evr[0]), "version": evr[1], "release": evr[2]}
+        if arch is not None or route == "dict-none":
+            d["arch"] = arch
+        o = c.from_json(json.dumps(d)) if route == "json" else c(d)
+        if hasattr(o, "repo") and len(case) > 10:
+            # where a package was listed from is not part of what it is
+            o.repo = REPOS[case[10 + len(out)] % len(REPOS)]
+        out.append(o)
+    return out
+
+
+def hash_oracle(case):
+    """(messages, finding-instance?, impl line). Python's contract, as far as the property reaches: hashing never raises,
+    is stable, packages with the same name/version/release/arch hash alike, and such packages with the same epoch are
+    one element of a set / one key of a dict"""
+    msgs, inst = [], False
+    try:
+        a, b = hash_objs(case)
+    except Exception as e:
+        return ["building the packages raised %s: %s" % (type(e).__name__, e)], False, "raised"
+    try:
+        ha, hb = hash(a), hash(b)
+    except Exception as e:
+        return ["hash() of a package raised %s: %s (%r)" % (type(e).__name__, e, case)], False, "raised:" + type(e).__name__
+    ops = ops_impl(a, b)
+    try:
+        if hash(a) != ha or hash(b) != hb:
+            msgs.append("hash of a package changed after it was compared")
+    except Exception as e:
+        msgs.append("hash() raised %s after a comparison" % type(e).__name__)
+    same_text = (case[0], case[1][1], case[1][2], case[2]) == (case[3], case[4][1], case[4][2], case[5])
+    if same_text and ha != hb:
+        msgs.append("packages with the same name, version, release and arch hash differently: %r / %r" % (case[:3], case[3:6]))
+    if same_text and case[1][0] == case[4][0]:
+        try:
+            n, found = len({a, b}), {a: 1}.get(b)
+        except Exception as e:
+            n, found = "raised:" + type(e).__name__, None
+        if n != 1 or found != 1:
+            msgs.append("two objects for the same package %r are %s elements of a set, dict look-up gives %r" % (case[:3], n, found))
+    if case[0] == case[3] and ops.startswith("1,") and ha != hb and not same_text:
+        inst = True                     # RPM-equal, textually different: == says equal, the hashes differ (known finding)
+    return msgs, inst, "1" if ha == hb else "0"
+
+
+GM_NAMES = ["pkg", "pkg-libs", "kernel-rt", "java-1.8.0-openjdk", "lib-2", "x"]
+
+
+def gm_content(case):
+    """text of `rpm -qa` for the builds in case['rows'] = [(name, (e, v, r))...] in one of the formats the parser reads"""
+    fmt, rows, noise = case["fmt"], case["rows"], case["noise"]
+    lines = []
+    for i, (n, (e, v, r)) in enumerate(rows):
+        if fmt == "json":
+            d = {"name": n, "version": v, "release": r, "arch": "x86_64"}
+            if e or i % 2:
+                d["epoch"] = str(e) if e else "(none)"
+            lines.append(json.dumps(d))
+        else:
+            s = "%s-%s%s-%s.x86_64" % (n, "%d:" % e if e else "", v, r)
+            if fmt == "long":
+                s += "    Tue 14 Jul 2015 09:25:38 AEST\t1398536494\tRed Hat, Inc.\thost.example.com\tabc\tRSA/8, Mon Aug 16 11:14:17 2010, Key ID 199e2f91fd431d51"
+            lines.append(s)
+    if noise & 1:
+        lines.insert(len(lines) // 2, "")
+    if noise & 2:
+        # messages of rpm itself come before, between or after the packages
+        lines.insert(0 if noise & 16 else 1 if noise & 32 else len(lines), "warning: Generating 12 missing index(es), please wait...")
+    if noise & 4:
+        lines.insert(0, "")
+    elif noise & 8:
+        lines.insert(0, "COMMAND> rpm -qa")
+    return "\n".join(lines)
+
+
+def gm_run(case):
+    """(messages, impl lines per queried name, groups as parsed) for one listing"""
+    msgs, outs = [], []
+    rows = [(n, tuple(e)) for n, e in case["rows"]]
+    try:
+        if case.get("parser") == "container":
+            # the parser of `rpm -qa` inside a running container: the same listing, the same look-ups
+            from insights.parsers.installed_rpms import ContainerInstalledRpms
+            rpms = ContainerInstalledRpms(context_wrap(gm_content(case), container_id="cc2883a1a369", image="quay.io/rhel8", engine="podman",
+                                                       path="insights_containers/cc2883a1a369/insights_commands/rpm_-qa"))
+        else:
+            rpms = InstalledRpms(context_wrap(gm_content(case)))
+        packages = rpms.packages
+        if not isinstance(packages, dict):
+            return ["packages is %r" % type(packages).__name__], [], None
+        got = dict((n, [(int(p.epoch), p.version, p.release) for p in l]) for n, l in packages.items())
+    except Exception as e:
+        return ["parsing the listing raised %s: %s" % (type(e).__name__, e)], [], None
+    want = {}
+    for n, e in rows:
+        want.setdefault(n, []).append(e)
+    if dict((n, sorted(l)) for n, l in got.items()) != dict((n, sorted(l)) for n, l in want.items()):
+        msgs.append("the listing %r was read as %r" % (want, got))
+        return msgs, [], None
+    for q in case["ask"]:
+        try:
+            res = [rpms.get_max(q), rpms.get_min(q), rpms.newest(q), rpms.oldest(q)]
+            inn = q in rpms
+        except Exception as e:
+            msgs.append("look-up of %r raised %s: %s" % (q, type(e).__name__, e))
+            outs.append("raised:" + type(e).__name__)
+            continue
+        if inn is not (q in want):
+            msgs.append("%r in rpms is %r" % (q, inn))
+        if q not in want:
+            if any(x is not None for x in res):
+                msgs.append("look-up of the absent name %r gives %r" % (q, res))
+            outs.append("none|none")
+            continue
+        if any(not isinstance(x, InstalledRpm) for x in res):
+            msgs.append("look-up of %r gives %r" % (q, res))
+            outs.append("?")
+            continue
+        if res[0] is not res[2] or res[1] is not res[3]:
+            msgs.append("newest/oldest(%r) are not get_max/get_min(%r)" % (q, q))
+        if not any(res[0] is p for p in packages[q]) or not any(res[1] is p for p in packages[q]):
+            msgs.append("get_max/get_min(%r) return an object that is not one of the listed builds" % q)
+        mx, mn = (int(res[0].epoch), res[0].version, res[0].release), (int(res[1].epoch), res[1].version, res[1].release)
+        # a total preorder sorts: sorted() of the listed builds keeps every build and ascends in RPM's order
+        try:
+            srt = sorted(packages[q])
+            evs = [(int(p.epoch), p.version, p.release) for p in srt]
+            if sorted(id(p) for p in srt) != sorted(id(p) for p in packages[q]):
+                msgs.append("sorted() of the builds of %r does not return the listed builds" % q)
+            elif any(ref_evr(evs[i], evs[i + 1]) > 0 for i in range(len(evs) - 1)):
+                msgs.append("sorted() of the builds of %r is not ascending in RPM's order: %r" % (q, evs))
+        except Exception as e:
+            msgs.append("sorted() of the builds of %r raised %s: %s" % (q, type(e).__name__, e))
+        for e in want[q]:
+            if ref_evr(e, mx) > 0:
+                msgs.append("get_max(%r)=%r but %r is listed and newer (RPM)" % (q, mx, e))
+            if ref_evr(e, mn) < 0:
+                msgs.append("get_min(%r)=%r but %r is listed and older (RPM)" % (q, mn, e))
+        outs.append("%d:%s-%s|%d:%s-%s" % (mx + mn))
+    return msgs, outs, got
+
+
+def ref_evr(x, y):
+    return sgn(x[0] - y[0]) or c_rpmvercmp(x[1], y[1]) or c_rpmvercmp(x[2], y[2])
+
+
+def id_run(case):
+    """the same object on both sides, and equal-but-not-identical copies of it"""
+    import copy
+    import pickle
+    a = mk_rpm(case["n"], tuple(case["x"]), case["c"], case["r"], case["e"])
+    how = case["how"]
+    b = a if how == "same" else copy.copy(a) if how == "copy" else copy.deepcopy(a) if how == "deepcopy" else \
+        pickle.loads(pickle.dumps(a)) if how == "pickle" else mk_rpm(case["n"], tuple(case["x"]), case["c"], case["r"], case["e"])
+    c = rpm_version_compare(a, b)
+    ops = ops_impl(a, b)
+    extra = []
+    try:
+        if max([a, b]) is not a or min([a, b]) is not a:
+            extra.append("max/min of a package and its equal do not return the first")
+        if how == "same" and (sorted([a, b])[0] is not a):
+            extra.append("sorted")
+    except Exception as e:
+        extra.append("max/min raised %s" % type(e).__name__)
+    return c, ops, extra
+
+
+def history_run(case):
+    """(messages, 'compare|operators' after the change, the two evr that are compared after the change)"""
+    x, y = tuple(case["x"]), tuple(case["y"])
+    a, b = mk_rpm("bash", x, case["c"], case["r"], case["e"]), mk_rpm("bash", y, "InstalledRpm", "dict", case["e"] + 1)
+    first = (rpm_version_compare(a, b), ops_impl(a, b), rpm_version_compare(b, a))        # the first comparison
+    which, new = case["which"], case["new"]
+    msgs = []
+    if which == "source":
+        # the source package of both: made from the `srpm` field, epoch taken over from the binary package
+        sv, sr1, sr2 = new
+        a.srpm, b.srpm = "bash-%s-%s.src.rpm" % (sv, sr1), "bash-%s-%s.src.rpm" % (sv, sr2)
+        try:
+            a, b = a.source, b.source
+        except Exception as e:
+            return ["source raised %s: %s" % (type(e).__name__, e)], "raised", x, y
+        if not isinstance(a, InstalledRpm) or not isinstance(b, InstalledRpm):
+            return ["source is %r" % (a,)], "?", x, y
+        x2, y2 = (x[0], sv, sr1 + ".src.rpm"), (y[0], sv, sr2 + ".src.rpm")
+        got = []
+        for o in (a, b):
+            try:
+                got.append((int(o.epoch), o.version, o.release))
+            except Exception as e:
+                got.append(type(e).__name__)
+        if got != [x2, y2]:
+            msgs.append("source packages of %r / %r with srpm %r / %r are %r" % (x, y, "bash-%s-%s.src.rpm" % (sv, sr1), "bash-%s-%s.src.rpm" % (sv, sr2), got))
+    else:
+        tgt = a if case["side"] == 0 else b
+        setattr(tgt, which, new)
+        i = ("epoch", "version", "release").index(which)
+        val = int(new) if which == "epoch" else new
+        x2 = tuple(val if j == i else v for j, v in enumerate(x)) if case["side"] == 0 else x
+        y2 = tuple(val if j == i else v for j, v in enumerate(y)) if case["side"] == 1 else y
+    c = rpm_version_compare(a, b)
+    ops = ops_impl(a, b)
+    ref = ref_evr(x2, y2)
+    want = ",".join("1" if v else "0" for v in (ref == 0, ref != 0, ref < 0, ref <= 0, ref > 0, ref >= 0))
+    if c != ref or ops != want:
+        msgs.append("after %s: %r vs %r compare=%d operators=%s, RPM gives %d (before the change: %r)"
+                    % ("taking the source packages" if which == "source" else "assigning %s=%r" % (which, new), x2, y2, c, ops, ref, first))
+    return msgs, "%d|%s" % (c, ops), x2, y2
+
+
+def run_glue(chk):
+    rng = chk.rng
+    quick = chk.tier == "quick"
+    archs = _known_arches(chk)
+    arch_field = ",".join(enc(a) for a in archs) or "-"
+    for a in OWN_ARCHES:
+        if a not in archs:
+            chk.failure("architecture %r is not recognised" % a, {"op": "pp", "s": "bash-1-1." + a, "want": ["bash", "0", "1", "1", a]})
+
+    # ---- stream: short package strings through every route
+    n_pp = 2500 if quick else 60000
+    cases, impl, lines = [], [], []
+    printed = []
+    for _ in range(n_pp):
+        s, want = gen_pkg_string(rng)
+        msgs, raw = pp_oracle(s, want)
+        for m in msgs[:1]:
+            chk.failure(m, {"op": "pp", "s": s, "want": list(want) if want else None})
+        cases.append(s)
+        impl.append(raw)
+        lines.append("pp\t%s\t%s" % (arch_field, enc(s)))
+        chk.case(("pp", s), True)
+        chk.count("pp:" + ("printed-from-fields" if want else "raises" if raw == "E" else "other"))
+        if want:
+            printed.append((s, want))
+    model = run_driver("C13", lines)
+    chk.compare("package-string", cases, impl, model)
+    chk.sample({"package string": cases[0], "impl": _show_fields(impl[0])})
+    # packages made from printed strings are ordered as their fields are
+    byname = {}
+    for s, w in printed:
+        byname.setdefault(w[0], []).append((s, w))
+    n_pairs = 0
+    for nm, l in sorted(byname.items()):
+        for _ in range(min(len(l), 60 if quick else 2000)):
+            (s1, w1), (s2, w2) = rng.choice(l), rng.choice(l)
+            if not (re.fullmatch(r"[0-9]+", w1[1]) and re.fullmatch(r"[0-9]+", w2[1])):
+                continue
+            mk = rng.choice([InstalledRpm.from_package, InstalledRpm, InstalledRpm.from_line, _SubRpm.from_package])
+            try:
+                a, b = mk(s1), mk(s2)
+            except Exception as e:
+                chk.failure("package strings %r / %r: %s" % (s1, s2, type(e).__name__), {"op": "pp-pair", "s1": s1, "s2": s2, "w1": list(w1), "w2": list(w2)})
+                continue
+            c = ref_evr((int(w1[1]), w1[2], w1[3]), (int(w2[1]), w2[2], w2[3]))
+            wantops = ",".join("1" if v else "0" for v in (c == 0, c != 0, c < 0, c <= 0, c > 0, c >= 0))
+            n_pairs += 1
+            chk.case(("pp-pair", s1, s2), s1 != s2)
+            if ops_impl(a, b) != wantops:
+                chk.failure("packages from the strings %r and %r: operators %s, RPM on their fields gives %d" % (s1, s2, ops_impl(a, b), c),
+                            {"op": "pp-pair", "s1": s1, "s2": s2, "w1": list(w1), "w2": list(w2)})
+    chk.count("pp:pairs", n_pairs)
+
+    # ---- stream: epochs as the objects get them (given / left out / '(none)' / not a number), by dict and JSON
+    eps = ["0", "00", "1", "7", "07", "9", "10", "100", "256", "257", "0257", "4294967296", "99999999999999999999", "(none)", "(none)",
+           "", "abc", "1.0", "(None)", "none", "0x10", "1a", "1 2"]
+    cases, impl, lines = [], [], []
+    for _ in range(700 if quick else 20000):
+        e1 = rng.choice(eps)
+        case = (rng.random() < 0.8, e1, rng.random() < 0.8, rng.choice(eps + [e1, e1.lstrip("0") or "0"]), rng.choice(["dict", "json"]), rng.choice(["dict", "json"]))
+        got = ep_impl(case)
+        cases.append(case)
+        impl.append(got)
+        lines.append("ep\t%d\t%s\t%d\t%s" % (case[0], enc(case[1]), case[2], enc(case[3])))
+        chk.case(("ep",) + case[:4], True)
+        chk.count("epoch:" + ("both-decimal" if not ep_want(case).endswith("E") else "not-a-number"))
+        if got != ep_want(case):
+            chk.failure("epochs %s / %s: the packages have epochs and compare as %s, expected %s"
+                        % (repr(case[1]) if case[0] else "absent", repr(case[3]) if case[2] else "absent", got, ep_want(case)), {"op": "ep", "case": list(case)})
+    chk.compare("epoch", cases, impl, run_driver("C13", lines))
+
+    # ---- stream: the same object on both sides / equal copies; operands that are not packages
+    cases, impl, lines = [], [], []
+    for _ in range(400 if quick else 10000):
+        x = (rng.choice([0, 1, 257, 20240101]), gen_str(rng, 4), gen_str(rng, 3))
+        case = {"op": "id", "n": "bash", "x": x, "c": rng.choice(["InstalledRpm", "YumListRpm", "subclass"]), "r": rng.choice(ROUTES), "e": rng.randrange(15),
+                "how": rng.choice(["same", "same", "copy", "deepcopy", "pickle", "again"])}
+        try:
+            c, ops, extra = id_run(case)
+        except Exception as e:
+            chk.failure("comparing a package with itself / its copy raised %s: %s" % (type(e).__name__, e), case)
+            continue
+        cases.append(case)
+        impl.append("%d|%s" % (c, ops))
+        lines.append("cmpid\t%d\t%d\t%s\t%s\t%d\t%s\t%s" % (case["how"] == "same", x[0], enc(x[1]), enc(x[2]), x[0], enc(x[1]), enc(x[2])))
+        chk.case(("id", x, case["how"]), True)
+        chk.count("identity:" + case["how"])
+        if c != 0 or ops != "1,0,0,1,0,1" or extra:
+            chk.failure("a package against %s: compare=%d, operators %s %s" % ("itself" if case["how"] == "same" else "an equal copy (%s)" % case["how"], c, ops, extra), case)
+    chk.compare("identity", cases, impl, [m + "|1,0,0,1,0,1" for m in run_driver("C13", lines)])
+
+    # ---- stream: histories on one object — a field is assigned after the first comparison (the way `source` sets the
+    # epoch of the package it builds), the next comparison is about the fields as they are now; and `source` itself
+    cases, impl, lines = [], [], []
+    for _ in range(600 if quick else 15000):
+        x = (rng.choice([0, 1, 9, 257]), gen_str(rng, 4), gen_str(rng, 3))
+        y = rng.choice([x, (x[0], x[1], mutate(rng, x[2])), (x[0], mutate(rng, x[1]), x[2])])
+        which = rng.choice(["epoch", "version", "release", "source", "source"])
+        new = str(rng.choice([0, 1, 10, 300])) if which == "epoch" else mutate(rng, x[1] if which == "version" else x[2])
+        if which == "source":
+            new = (gen_str(rng, 3).replace("-", "") or "1", gen_str(rng, 3).replace("-", "") or "1", gen_str(rng, 3).replace("-", "") or "1")
+            new = tuple(t if not any(c.isspace() or c == ":" for c in t) else "1" for t in new)
+        case = {"op": "history", "x": x, "y": y, "which": which, "new": new, "c": rng.choice(["InstalledRpm", "YumListRpm", "subclass"]),
+                "r": rng.choice(ROUTES), "e": rng.randrange(15), "side": rng.randrange(2)}
+        msgs, got, x2, y2 = history_run(case)
+        for m in msgs[:1]:
+            chk.failure(m, case)
+        cases.append(case)
+        impl.append(got)
+        lines.append("evr\t%d\t%s\t%s\t%d\t%s\t%s" % (x2[0], enc(x2[1]), enc(x2[2]), y2[0], enc(y2[1]), enc(y2[2])))
+        lines.append("ops\t%s\t%d\t%s\t%s\t%s\t%d\t%s\t%s" % (enc("bash"), x2[0], enc(x2[1]), enc(x2[2]), enc("bash"), y2[0], enc(y2[1]), enc(y2[2])))
+        chk.case(("history", x, y, which, new), True)
+        chk.count("history:" + which)
+    out = run_driver("C13", lines)
+    chk.compare("history", cases, impl, ["%s|%s" % (out[2 * i], out[2 * i + 1]) for i in range(len(cases))])
+
+    cases, impl, lines = [], [], []
+    ops_all = foreign_operands()
+    for _ in range(150 if quick else 3000):
+        x = (rng.choice([0, 1, 257]), gen_str(rng, 4), gen_str(rng, 3))
+        case = {"op": "foreign", "n": rng.choice(["bash", "kernel"]), "x": x, "c": rng.choice(["InstalledRpm", "YumListRpm", "subclass"]), "r": rng.choice(ROUTES), "e": rng.randrange(15)}
+        a = mk_rpm(case["n"], x, case["c"], case["r"], case["e"])
+        for tag, o in ops_all:
+            d, m = foreign_impl(a, o)
+            cases.append(dict(case, operand=tag))
+            impl.append(d + "|" + m)
+            lines.append("opsx\t%s\t%d\t%s\t%s" % (enc(case["n"]), x[0], enc(x[1]), enc(x[2])))
+            chk.count("foreign-operand:" + tag)
+        chk.case(("foreign", case["n"], x), True)
+    model = run_driver("C13", lines)
+    chk.compare("foreign-operands", cases, impl, [m + "|" + m for m in model])
+
+    # ---- stream: hashing
+    wit = json.load(open(os.path.join(VERIF, "corpus", "C13", "eq_but_hash_differs.json"), encoding="utf-8"))["case"]
+    wit = tuple(tuple(x) if isinstance(x, list) else x for x in wit)
+    msgs, inst, _ = hash_oracle(wit)
+    if inst and not msgs:
+        chk.finding_reproduced(HASH_FINDING)
+    cases, impl, lines = [], [], []
+    for _ in range(1500 if quick else 40000):
+        n1 = rng.choice(["bash", "kernel-rt", "a-1"])
+        x = (rng.choice([0, 0, 1, 257]), gen_str(rng, 4), gen_str(rng, 3))
+        a1 = rng.choice(ARCHES + [None, None, ""])
+        k = rng.randrange(8)
+        n2, y, a2 = n1, x, a1
+        if k == 0:
+            y = (x[0] + 1, x[1], x[2])
+        elif k == 1:
+            a2 = rng.choice(ARCHES + [None])
+        elif k == 2:
+            y = (x[0], rng.choice(["0" + x[1], x[1] + ".", x[1].replace(".", "_"), x[1]]), x[2])
+        elif k == 3:
+            y = (x[0], x[1], mutate(rng, x[2]))
+        elif k == 4:
+            y = (x[0], mutate(rng, x[1]), x[2])
+        elif k == 5 and "-" in n1:
+            # another package whose printed name-version-release is the same text
+            h, t = n1.rsplit("-", 1)
+            n2, y = h, (x[0], t + "-" + x[1], x[2])
+        case = (n1, x, a1, n2, y, a2, rng.choice(["InstalledRpm", "YumListRpm", "subclass"]), rng.choice(["InstalledRpm", "YumListRpm", "subclass"]),
+                rng.choice(["dict", "json", "dict-none"]), rng.choice(["dict", "json", "dict-none"]), rng.randrange(15), rng.randrange(15))
+        msgs, inst, line = hash_oracle(case)
+        for m in msgs[:1]:
+            chk.failure(m, {"op": "hash", "case": list(case)})
+        if inst:
+            chk.failure("== says equal, hashes differ: %r" % (case[:6],), {"op": "hash", "case": list(case)}, finding=HASH_FINDING)
+            chk.count("hash:rpm-equal-different-text")
+        cases.append(case)
+        impl.append(line)
+        f = lambda a: "N" if a is None else "A" + enc(a)
+        lines.append("hk\t%s\t%s\t%s\t%s\t%s\t%s\t%s\t%s" % (enc(n1), enc(x[1]), enc(x[2]), f(a1), enc(n2), enc(y[1]), enc(y[2]), f(a2)))
+        chk.case(("hash",) + case[:6], case[:3] != case[3:6])
+        chk.count("hash:" + ("same-key" if line == "1" else "different-key"))
+    chk.compare("hash", cases, impl, [m.split("|")[0] for m in run_driver("C13", lines)])
+
+    # ---- stream: look-up by name in front of max / min, every input format of `rpm -qa`
+    ascii_alpha = ["0", "1", "9", "10", "01", "a", "b", "Z", ".", "_", "~", "^", "+", "rc"]
+
+    def gen_ascii(n):
+        return "".join(rng.choice(ascii_alpha) for _ in range(rng.randint(1, n)))
+    cases, impl, lines = [], [], []
+    for _ in range(500 if quick else 15000):
+        names = rng.sample(GM_NAMES, rng.randint(1, 3))
+        rows = []
+        for n in names:
+            base = (rng.choice([0, 0, 1, 257]), gen_ascii(3), gen_ascii(3))
+            for _ in range(rng.randint(1, 4)):
+                rows.append((n, rng.choice([base, (base[0], mutate_ascii(rng, base[1], ascii_alpha), base[2]), (base[0], "0" + base[1], base[2]),
+                                            (rng.choice([0, 1, base[0]]), gen_ascii(3), gen_ascii(2))])))
+        rng.shuffle(rows)
+        case = {"op": "gmax", "fmt": rng.choice(["short", "long", "json"]), "rows": rows, "noise": rng.randrange(64), "parser": rng.choice(["host", "host", "container"]),
+                "ask": names + [rng.choice(["nosuch", "pkg-", "", "PKG"])] + [n for n in GM_NAMES[:2] if n not in names]}
+        msgs, outs, got = gm_run(case)
+        for m in msgs[:1]:
+            chk.failure(m, case)
+        chk.case(("gmax", case["fmt"], tuple(rows)), len(rows) > 1)
+        chk.count("lookup:" + case["fmt"])
+        chk.count("lookup:parser:" + case["parser"])
+        if got is None:
+            continue
+        flat = []
+        for n in sorted(got):
+            flat += [enc(n), str(len(got[n]))]
+            for e in got[n]:
+                flat += [str(e[0]), enc(e[1]), enc(e[2])]
+        for q, o in zip(case["ask"], outs):
+            cases.append({"case": case, "ask": q})
+            impl.append(o)
+            lines.append("gmax\t%s\t%s" % (enc(q), "\t".join(flat)))
+            chk.count("lookup:" + ("present" if q in got else "absent"))
+    model = run_driver("C13", lines)
+    chk.compare("lookup-by-name", cases, impl, ["|".join("none" if h == "none" else canon_evr(h) for h in m.split("|")) for m in model])
 
 
 def mutate_ascii(rng, s, alpha):
@@ -555,9 +1224,65 @@ def replay(data):
             rpms = parse_list(c.get("parser", "rpm-qa"), evrs)
             mx, mn = rpms.newest("pkg"), rpms.oldest("pkg")
             print("%s: impl newest=%s oldest=%s" % (c.get("parser", "rpm-qa"), show(mx), show(mn)))
-            bad = any(rpm_version_compare(p, mx) > 0 or rpm_version_compare(p, mn) < 0 for p in rpms.packages["pkg"])
+            read = [(int(p.epoch), p.version, p.release) for p in rpms.packages.get("pkg", [])]
+            if read != evrs:
+                print("listed %r, read as %r" % (evrs, read))
+            bad = read != evrs or any(rpm_version_compare(p, mx) > 0 or rpm_version_compare(p, mn) < 0 for p in rpms.packages["pkg"])
         except Exception as e:
             print("impl raised %s: %s" % (type(e).__name__, e))
             bad = True
+    elif op == "pp":
+        want = tuple(c["want"]) if c.get("want") else None
+        msgs, raw = pp_oracle(c["s"], want)
+        for nm, got in pp_routes(c["s"]):
+            print("%-24s %s" % (nm, _show_fields(got)))
+        archs = _known_arches(_Quiet())
+        print("model: %s" % _show_fields(run_driver("C13", ["pp\t%s\t%s" % (",".join(enc(a) for a in archs) or "-", enc(c["s"]))])[0]))
+        for m in msgs:
+            print(m)
+        bad = bool(msgs) or (want is not None and want[4] is not None and want[4] not in archs)
+    elif op == "pp-pair":
+        w1, w2 = c["w1"], c["w2"]
+        cmpv = ref_evr((int(w1[1]), w1[2], w1[3]), (int(w2[1]), w2[2], w2[3]))
+        wantops = ",".join("1" if v else "0" for v in (cmpv == 0, cmpv != 0, cmpv < 0, cmpv <= 0, cmpv > 0, cmpv >= 0))
+        for mk in (InstalledRpm.from_package, InstalledRpm, InstalledRpm.from_line, _SubRpm.from_package):
+            got = _guard(lambda: ops_impl(mk(c["s1"]), mk(c["s2"])))
+            print("%s: operators %s, RPM on the fields gives %d (%s)" % (getattr(mk, "__name__", mk), got, cmpv, wantops))
+            bad = bad or got != wantops
+    elif op == "ep":
+        case = tuple(c["case"])
+        print("impl %s   expected %s" % (ep_impl(case), ep_want(case)))
+        bad = ep_impl(case) != ep_want(case)
+    elif op == "id":
+        try:
+            cmpv, ops, extra = id_run(c)
+            print("compare=%d operators=%s %s" % (cmpv, ops, extra))
+            bad = cmpv != 0 or ops != "1,0,0,1,0,1" or bool(extra)
+        except Exception as e:
+            print("raised %s: %s" % (type(e).__name__, e))
+            bad = True
+    elif op == "history":
+        msgs, got, x2, y2 = history_run(c)
+        print("after the change: %r vs %r -> %s" % (x2, y2, got))
+        for m in msgs:
+            print(m)
+        bad = bool(msgs)
+    elif op == "hash":
+        msgs, inst, line = hash_oracle(tuple(tuple(x) if isinstance(x, list) else x for x in c["case"]))
+        for m in msgs:
+            print(m)
+        print("hashes equal: %s; instance of the known finding %s: %s" % (line, HASH_FINDING, inst))
+        bad = bool(msgs)
+    elif op == "gmax":
+        msgs, outs, got = gm_run(c)
+        print("read as %r; answers %r" % (got, list(zip(c["ask"], outs))))
+        for m in msgs:
+            print(m)
+        bad = bool(msgs)
     print("property violated on this input" if bad else "property holds on this input")
     return 1 if bad else 0
+
+
+class _Quiet(object):
+    def failure(self, *a, **k):
+        pass
